@@ -12,7 +12,8 @@ META = {
             "kernel formula K(a1,a0) is extracted with symbolic (non-commuting 2x2 for the singlet) anomalous dimensions and "
             "proved to satisfy K(a0,a0)=1 and (dK/da1) K^-1 - gamma(a1)/beta(a1) = O(lam^(n-1)) under a_i -> lam a_i, which "
             "implies K = K_exact (1 + O(a^n)) for the path-ordered exact solution. Python reference semantics of arrays are "
-            "kept, so aliasing between intermediate arrays is part of the extracted formula.",
+            "kept, so aliasing between intermediate arrays is part of the extracted formula."
+            " Two-step instances of the perturbative methods are part of the quick tier (the order of the step product).",
     "note": "The implication uses K(a0,a0)=1, analyticity in the joint scaling and boundedness of K_exact^-1, K at fixed a1/a0. "
             "Series coefficients are computed exactly in F_p at random values of all other symbols (error < 1e-30). The "
             "decompose methods are held to this only in the commuting limit (C09). Measured scaling on floats is not decided.",
